@@ -217,6 +217,13 @@ pub fn generate(em: &mut Emitter, seed: u64, thorough: bool) {
             Err(e) => em.oracle_failures.push(format!("C12 fixed source does not assemble: {} :: {}", src, e)),
         }
     }
+    // power-of-two boundary shapes of every trace component (memory-last / kernel-last chiplets,
+    // range table, cycles)
+    for (what, k, src, st) in crate::c03::boundary_programs(if thorough { 12 } else { 4 }) {
+        if let Ok(p) = assemble(k.as_deref(), &src, false) {
+            check_balance(em, &what, &src[..src.len().min(200)], &p, &st, &[], &mut rng, &mut counters);
+        }
+    }
     // kernels: unused procedures, one procedure called several times, syscalls from nested calls
     let kern = "export.k1 push.1 drop end\nexport.k2 caller dropw padw dropw end\nexport.k3 push.7 mem_store.5 drop end\nexport.k4 swap swap end\n";
     for src in [
